@@ -1,4 +1,10 @@
 import TsVerif.C18.Props
+#print axioms TsVerif.C18.line_range_spec
+#print axioms TsVerif.C18.line_spec_bounds
+#print axioms TsVerif.C18.utf16_len_append_partial
+#print axioms TsVerif.C18.utf16_spec_append
+#print axioms TsVerif.C18.utf16_len_eq_spec
 #print axioms TsVerif.C18.cache_correct
 #print axioms TsVerif.C18.cache_reset_ok
+#print axioms TsVerif.C18.cache_correct_utf16
 #print axioms TsVerif.C18.queue_insert_sorted
